@@ -239,6 +239,37 @@ class C08(Prop):
                     m = bytearray(base)
                     m[pos] = (m[pos] + delta) & 0xff
                     out.append(bytes(m))
+        # length-field probes: one length byte set, followed by as many bytes as a decoder that shifts that
+        # byte by the wrong amount (or reads the wrong byte) would expect -- and by what the right one expects
+        for opc, w in ((0x4d, 2), (0x4e, 4)):
+            for p in range(w):
+                for v in (1, 2, 0x80):
+                    field = bytearray(w)
+                    field[p] = v
+                    for q in range(3):
+                        n = v * 256 ** q
+                        if n <= 0x20000:
+                            body = rng.randbytes(n)
+                            out.append(bytes([opc]) + bytes(field) + body)
+                            out.append(bytes([opc]) + bytes(field) + body + b'\xac')
+            field = bytes(range(1, w + 1))              # all length bytes distinct: 01 02 (03 04)
+            out.append(bytes([opc]) + field + rng.randbytes(0x0201))
+            out.append(bytes([opc]) + field[::-1] + rng.randbytes(0x0102))
+        # every push form at every canonical-length boundary (has_canonical_pushes, re-encoding)
+        for n in (0, 1, 2, 0x4b, 0x4c, 0x4d, 0xfe, 0xff, 0x100, 0x101, 0xfffe, 0xffff, 0x10000, 0x10001):
+            body = rng.randbytes(n)
+            if n <= 0xff:
+                out.append(b'\x4c' + bytes([n]) + body)
+            if n <= 0xffff:
+                out.append(b'\x4d' + n.to_bytes(2, 'little') + body)
+            out.append(b'\x4e' + n.to_bytes(4, 'little') + body)
+            if n < 0x4c:
+                out.append(bytes([n]) + body)
+        for b in range(0, 0x22):                       # 1-byte pushes of small values: OP_n aliasing
+            out.append(bytes([1, b]))
+            out.append(b'\x4c\x01' + bytes([b]))
+        out.append(b'\x4c\x01' + b'\x4c')
+        out.append(b'\x4c\x02' + b'\x4c')
         for _ in range(count):
             n = rng.randrange(0, 48)
             out.append(rng.randbytes(n))
